@@ -134,10 +134,6 @@ class Model:
         return g, Hs
 
 
-def dec(x):
-    return D(x) if isinstance(x, (int, str)) else D(repr(float(x))) if False else D(x)
-
-
 # ----------------------------------------------------------------------------------------
 # replays (self-contained, run on the real objects)
 # ----------------------------------------------------------------------------------------
